@@ -121,11 +121,13 @@ type SpecDB struct {
 	Guards      []*GuardSpec
 	LockInvs    map[string][]SpecClause
 	Directives  map[string][]string // pkgpath -> raw directive lines (ledger etc.)
+	Immutable   map[string]bool     // package-level variables that never change
+	Imports     map[string]map[string]string
 	Errors      []string
 }
 
 func NewSpecDB() *SpecDB {
-	return &SpecDB{Funcs: map[string]*FuncSpec{}, GhostFields: map[string][]*GhostField{}, SpecFns: map[string]*SpecFn{}, Preds: map[string]*Pred{}, PkgModes: map[string]string{}, LockInvs: map[string][]SpecClause{}, Directives: map[string][]string{}}
+	return &SpecDB{Funcs: map[string]*FuncSpec{}, GhostFields: map[string][]*GhostField{}, SpecFns: map[string]*SpecFn{}, Preds: map[string]*Pred{}, PkgModes: map[string]string{}, LockInvs: map[string][]SpecClause{}, Directives: map[string][]string{}, Immutable: map[string]bool{}, Imports: map[string]map[string]string{}}
 }
 
 func parseGoFile(fset *token.FileSet, filename string, src []byte) (*ast.File, error) {
@@ -350,6 +352,17 @@ func (db *SpecDB) parseBlock(body, pkgPath, file string, line0 int, extern bool)
 			}
 			k := curPkg + "." + strings.TrimSpace(ls)
 			db.LockInvs[k] = append(db.LockInvs[k], SpecClause{Expr: b, Src: strings.TrimSpace(bs), Where: where})
+		case topLevel && word == "immutable":
+			db.Immutable[strings.Trim(rest, "\" ")] = true
+		case topLevel && word == "import":
+			// import name "path"
+			fs := strings.Fields(rest)
+			if len(fs) == 2 {
+				if db.Imports[curPkg] == nil {
+					db.Imports[curPkg] = map[string]string{}
+				}
+				db.Imports[curPkg][fs[0]] = strings.Trim(fs[1], "\"")
+			}
 		case topLevel && word == "directive":
 			db.Directives[curPkg] = append(db.Directives[curPkg], rest)
 		case topLevel && (word == "func" || word == "extern" || word == "funclit"):
